@@ -19,7 +19,7 @@ rm -rf "$W"; git -C /repo worktree prune; mkdir -p /tmp/seedchk
 git -C /repo worktree add -q --detach "$W" HEAD || exit 2
 cleanup() { git -C /repo worktree remove --force "$W" 2>/dev/null; git -C /repo worktree prune; }
 trap cleanup EXIT
-res="$SD/confirm.log"; : > "$res"
+res="${SEED_LOG:-$SD/confirm.log}"; : > "$res"
 if ! git -C "$W" apply "$SD/patch.diff" 2>>"$res"; then echo "PATCH DOES NOT APPLY to current /repo HEAD" | tee -a "$res"; exit 3; fi
 mkdir -p "$W/seed_demo"; cp -r "$SD/demo/." "$W/seed_demo/"
 echo "== repo tests with the change" >> "$res"
@@ -43,6 +43,6 @@ for chk in "$@"; do
   # keep the replay artefacts (smallest failing case per signature) next to the seed
   n=0
   for rp in $(echo "$out" | grep '^VIOLATION' | sed -n 's/.*replay=\([^ ]*\).*/\1/p' | head -3); do
-    [ -f "$rp" ] && cp "$rp" "$SD/replay-$chk-$n.$(echo "$rp" | sed 's/.*\.//')" && n=$((n+1))
+    [ -z "${SEED_LOG:-}" ] && [ -f "$rp" ] && cp "$rp" "$SD/replay-$chk-$n.$(echo "$rp" | sed 's/.*\.//')" && n=$((n+1))
   done
 done
